@@ -175,8 +175,8 @@ def proof_obligations(prop_id, tier):
     if hits:
         raise MachineryBroken("forbidden constructs in Lean sources:\n" + "\n".join(hits))
     thms = lean_audit()
-    mine = [t for t in thms if t["module"].endswith("." + prop_id) or t["module"].endswith("." + prop_id + "x")
-            or ("." + prop_id + "_") in t["module"]]
+    # Props/C02.lean, Props/C02Scan.lean, ... all belong to C02
+    mine = [t for t in thms if t["module"].rsplit(".", 1)[-1].startswith(prop_id)]
     bad = [t for t in mine if not set(t["axioms"]) <= ALLOWED_AXIOMS]
     if bad:
         raise MachineryBroken("theorems with unexpected axioms: %r" % bad)
